@@ -14,6 +14,7 @@ Theorem C11_degrees : C11_degrees_stmt. Proof. exact C11_pd.C11_degrees. Qed.
 Theorem C11_slerp_clamped : C11_slerp_clamped_stmt. Proof. exact C11_pg.C11_slerp_clamped. Qed.
 (** float clause of normalisation under the rounded interpretation of lib/FlOps.v *)
 Theorem C11_float_normalized : C11_float_normalized_stmt. Proof. exact C11_fl.C11_float_normalized. Qed.
+Theorem C11_float_normalized24 : C11_float_normalized24_stmt. Proof. exact C11_fl.C11_float_normalized24. Qed.
 
 Print Assumptions C11_basic.
 Print Assumptions C11_wide.
@@ -25,3 +26,4 @@ Print Assumptions C11_slerp.
 Print Assumptions C11_slerp_clamped.
 Print Assumptions C11_degrees.
 Print Assumptions C11_float_normalized.
+Print Assumptions C11_float_normalized24.
